@@ -61,4 +61,17 @@ CLAIMED = {
             "One-sided (as the property): false rejections are counted only. did_url_parser is NOT trusted (that is how its "
             "percent-encoding defects were found); class representatives assumed interchangeable.",
             "DESIGN.md §3 C10"),
+    "C17": ("TLA+ spec IotaDid (decision table over method spelling, network-name class sequences, tag shape, surplus segments, "
+            "URL suffixes, entry points, plus IotaDID::new rows) evaluated by TLC; every row executed on the real IotaDID / "
+            "NetworkName",
+            "model_checking",
+            "TLC enumerates the complete product (about 10^5 rows) and computes case-insensitive validity and the lowercase normal "
+            "form; every row is executed through parse/FromStr/TryFrom, try_from_core/TryFrom<CoreDID>/is_valid and serde; an "
+            "accepted value must be valid, be held in normal form (default network omitted, lower case, no URL parts), recompose "
+            "from network_str/tag_str, re-parse and serde-round-trip to itself; IotaDID::new/placeholder must expose exactly the "
+            "given bytes and network for every NetworkName the library hands out (try_from and serde); equality/ordering/hash are "
+            "compared with equality of (network, tag bytes) on all accepted pairs per chunk.",
+            "One-sided like the property (rejections of valid rows are counted). Decision table: no trace direction. prefix_hex "
+            "trusted.",
+            "DESIGN.md §3 C17"),
 }
